@@ -344,16 +344,32 @@ def _assert_addable(module: Module, val: ModuleAttr, name: Any) -> None:
         # Elaboration began but did not complete, e.g. because a parent of `module` failed.
         msg = f"Cannot add {val} to {module}, which a (failed) elaboration has partially processed."
         raise RuntimeError(msg)
-    prev = getattr(val, "_parent_module", None)
-    if prev is not None and prev is not module and prev.namespace.get(val.name, None) is val:
-        # Still an attribute of another Module, which would be left holding an object named and parented elsewhere.
-        if prev._elaborated is not None or prev._elaboration_started:
-            msg = f"Cannot add {val} to {module}: it is attribute `{val.name}` of {prev}, which has been elaborated"
+    # One object has one name. Under two, it would be exported twice, or under the newer name only.
+    # (Looked up by identity: `val.name` is the name its *last* holder gave it.)
+    for key, attr in module.namespace.items():
+        if attr is val and key != name:
+            msg = f"Cannot add {val} to {module} as `{name}`: it already is its attribute `{key}`"
             raise RuntimeError(msg)
-    if val.name != name and module.namespace.get(val.name, None) is val:
-        # One object has one name. Under two, it would be exported twice, under the newer.
-        msg = f"Cannot add {val} to {module} as `{name}`: it already is its attribute `{val.name}`"
-        raise RuntimeError(msg)
+    # Nor can it be taken from a holder which cannot notice the loss: a `Bundle`, or a `Module` elaboration has been through.
+    # (An un-elaborated `Module` it is taken from is left with an orphan, which its elaboration reports.)
+    held = _holder_of(val)
+    if held is not None and held[0] is not module:
+        prev, key = held
+        if not isinstance(prev, Module) or prev._elaborated is not None or prev._elaboration_started:
+            msg = f"Cannot add {val} to {module}: it is attribute `{key}` of {prev}"
+            msg += ", which has been elaborated" if isinstance(prev, Module) else ". (Add a copy instead.)"
+            raise RuntimeError(msg)
+
+
+def _holder_of(val: Any) -> Optional[tuple]:
+    """The `(Module or Bundle, name)` which currently holds `val` as an attribute, if any.
+    (Copies of attributes keep the reference to their original's parent, but are not held by it.)"""
+    for parent in (getattr(val, "_parent_module", None), getattr(val, "_parent_bundle", None)):
+        if parent is not None:
+            for key, attr in parent.namespace.items():
+                if attr is val:
+                    return (parent, key)
+    return None
 
 
 def _add(module: Module, val: ModuleAttr) -> ModuleAttr:
